@@ -3,9 +3,13 @@
 bool_from_string / is_valid_boolstr / int_from_bool_as_string / is_int_like / validate_integer /
 check_string_length (strutils.py) and is_uuid_like / generate_uuid (uuidutils.py).
 """
+import itertools
+import math
 import re
 import sys
 import unicodedata
+from decimal import Decimal
+from fractions import Fraction
 
 import common
 from common import Disagreement, Failure, req
@@ -266,6 +270,132 @@ def opt(x):
     return 'N' if x is None else str(x)
 
 
+# ---- numeric bounds (min_value / max_value / min_length / max_length) -----------------------------------
+# a bound in a case is None, an int, or {'t': 'float'|'decimal'|'fraction'|'bool', 'v': text}
+
+def BD(t, v):
+    return {'t': t, 'v': v}
+
+
+def bound_obj(b):
+    if b is None or type(b) is int:
+        return b
+    t = b['t']
+    if t == 'float':
+        return float(b['v'])
+    if t == 'decimal':
+        return Decimal(b['v'])
+    if t == 'fraction':
+        return Fraction(b['v'])
+    if t == 'bool':
+        return bool(b['v'])
+    raise ValueError('unknown bound type %r' % (t,))
+
+
+def bound_exact(b):
+    """('fin', Fraction) - Python compares an int with int/bool/float/Decimal/Fraction exactly - or ('+inf',),
+    ('-inf',), ('nan',) (float nan), ('dnan',) (Decimal NaN / sNaN)"""
+    o = bound_obj(b)
+    if isinstance(o, float):
+        if math.isnan(o):
+            return ('nan',)
+        if math.isinf(o):
+            return ('+inf',) if o > 0 else ('-inf',)
+    if isinstance(o, Decimal):
+        if o.is_nan():
+            return ('dnan',)
+        if o.is_infinite():
+            return ('+inf',) if o > 0 else ('-inf',)
+    return ('fin', Fraction(o))
+
+
+def bound_field(b):
+    if b is None:
+        return 'N'
+    e = bound_exact(b)
+    if e[0] == 'fin':
+        return text_of_int(e[1].numerator) + '/' + text_of_int(e[1].denominator)
+    return e[0]
+
+
+# ---- the pinned public signatures (as on the clean tree; never read from the tree under test) ----------
+SIGNATURES = {
+    'bool': ('bool_from_string', ['subject'], [('strict', False), ('default', False)]),
+    'intbool': ('int_from_bool_as_string', ['subject'], []),
+    'boolstr': ('is_valid_boolstr', ['value'], []),
+    'intlike': ('is_int_like', ['val'], []),
+    'valint': ('validate_integer', ['value', 'name'], [('min_value', None), ('max_value', None)]),
+    'strlen': ('check_string_length', ['value'], [('name', None), ('min_length', 0), ('max_length', None)]),
+    'uuid': ('is_uuid_like', ['val'], []),
+    'genuuid': ('generate_uuid', [], [('dashed', True)]),
+}
+# the call form used when a case names none: what the documentation shows
+DEFAULT_FORM = {'bool': {'npos': 1, 'kw': ['strict', 'default']}, 'valint': {'npos': 4, 'kw': []},
+                'strlen': {'npos': 4, 'kw': []}}
+
+
+def default_obj(d):
+    return SENTINEL if d == 'sentinel' else d
+
+
+def logical_args(case):
+    """parameter name -> argument object, for every parameter of the pinned signature"""
+    fn = case['fn']
+    obj = obj_of(case['value'])
+    if fn == 'bool':
+        return {'subject': obj, 'strict': case['strict'], 'default': default_obj(case.get('default', 'sentinel'))}
+    if fn == 'valint':
+        return {'value': obj, 'name': 'v', 'min_value': bound_obj(case['min']), 'max_value': bound_obj(case['max'])}
+    if fn == 'strlen':
+        return {'value': obj, 'name': case.get('name', 'v'), 'min_length': bound_obj(case['min']),
+                'max_length': bound_obj(case['max'])}
+    return {SIGNATURES[fn][1][0]: obj}
+
+
+def build_call(case):
+    """(args, kwargs) of the call form of the case: the first `npos` parameters positionally, the parameters in `kw`
+    by keyword in that order, the others omitted (their logical value is the pinned default)"""
+    fn = case['fn']
+    _, required, optional = SIGNATURES[fn]
+    names = required + [n for n, _ in optional]
+    logical = logical_args(case)
+    form = case.get('form') or DEFAULT_FORM.get(fn) or {'npos': len(names), 'kw': []}
+    args = [logical[n] for n in names[:form['npos']]]
+    kwargs = dict((n, logical[n]) for n in form['kw'])
+    return args, kwargs
+
+
+def _same(v, d):
+    return v is d or (type(v) is type(d) and v == d)
+
+
+def call_forms(case, rng, limit=None):
+    """every legal call form of the pinned signature for the logical arguments of the case"""
+    fn = case['fn']
+    _, required, optional = SIGNATURES[fn]
+    names = required + [n for n, _ in optional]
+    defaults = dict(optional)
+    logical = logical_args(case)
+    forms = []
+    for npos in range(len(names) + 1):
+        rest = names[npos:]
+        omittable = [n for n in rest if n in defaults and _same(logical[n], defaults[n])]
+        for mask in itertools.product([False, True], repeat=len(omittable)):
+            omit = set(n for n, o in zip(omittable, mask) if o)
+            kws = [n for n in rest if n not in omit]
+            if len(kws) <= 3:
+                perms = list(itertools.permutations(kws))
+            else:
+                perms = [tuple(kws), tuple(reversed(kws))] + [tuple(rng.sample(kws, len(kws))) for _ in range(2)]
+            for pm in perms:
+                f = {'npos': npos, 'kw': list(pm)}
+                if f not in forms:
+                    forms.append(f)
+    if limit and len(forms) > limit:
+        forms = rng.sample(forms, limit)
+    return forms
+
+
 def case_line(case):
     fn = case['fn']
     if fn.startswith('prim/'):
@@ -282,10 +412,26 @@ def case_line(case):
     if fn in ('boolstr', 'intbool', 'intlike', 'uuid'):
         return req(fn, f)
     if fn == 'valint':
-        return req('valint', f, opt(case['min']), opt(case['max']))
+        return req('valint', f, bound_field(case['min']), bound_field(case['max']))
     if fn == 'strlen':
-        return req('strlen', f, case['min'], opt(case['max']))
+        return req('strlen', f, bound_field(case['min']), bound_field(case['max']))
     raise ValueError(fn)
+
+
+def canon_bool_result(v):
+    if v is True or v is False:
+        return 'val:%d' % v
+    if v is None:
+        return 'none'
+    return 'other:%r' % (v,)
+
+
+def model_view(case, reply):
+    """the model (and the oracle) say 'default' when bool_from_string returns the caller's default object; with a
+    default that is not the sentinel that is the default's own value"""
+    if case['fn'] == 'bool' and reply == 'default' and case.get('default', 'sentinel') != 'sentinel':
+        return canon_bool_result(case['default'])
+    return reply
 
 
 def _impl(fn):
@@ -300,18 +446,15 @@ def _impl(fn):
         return f
     if fn.startswith('prim/'):
         return None
-    mod, name = {'bool': (strutils, 'bool_from_string'), 'boolstr': (strutils, 'is_valid_boolstr'),
-                 'intbool': (strutils, 'int_from_bool_as_string'), 'intlike': (strutils, 'is_int_like'),
-                 'valint': (strutils, 'validate_integer'), 'strlen': (strutils, 'check_string_length'),
-                 'uuid': (uuidutils, 'is_uuid_like')}[fn]
-    return whitebox.public_function(mod, name)
+    mod = uuidutils if fn in ('uuid', 'genuuid') else strutils
+    return whitebox.public_function(mod, SIGNATURES[fn][0])
 
 
 def run_impl(case):
     """Outcome of the real function, in the driver's reply format."""
     fn = case['fn']
     f = _impl(fn)
-    obj = obj_of(case['value']) if 'value' in case else None
+    args, kwargs = ([], {}) if fn.startswith('prim/') else build_call(case)
     try:
         if fn.startswith('prim/'):
             p = fn[5:]
@@ -328,31 +471,19 @@ def run_impl(case):
                 return common.hexs(r) if isinstance(r, str) else 'other:%r' % (r,)
             if p == 'str':
                 return common.hexs(str(int_of_text(case['n'])))
+        r = f(*args, **kwargs)
         if fn == 'bool':
-            r = f(obj, strict=case['strict'], default=SENTINEL)
             if r is SENTINEL:
                 return 'default'
-            if r is True or r is False:
-                return 'val:%d' % r
-            return 'other:%r' % (r,)
-        if fn == 'boolstr':
-            r = f(obj)
+            return canon_bool_result(r)
+        if fn in ('boolstr', 'intlike', 'uuid'):
             return '%d' % r if isinstance(r, bool) else 'other:%r' % (r,)
         if fn == 'intbool':
-            r = f(obj)
             return '%d' % r if type(r) is int else 'other:%r' % (r,)
-        if fn == 'intlike':
-            r = f(obj)
-            return '%d' % r if isinstance(r, bool) else 'other:%r' % (r,)
         if fn == 'valint':
-            r = f(obj, 'v', case['min'], case['max'])
             return 'ok:' + text_of_int(r) if type(r) is int else 'other:%r' % (r,)
         if fn == 'strlen':
-            r = f(obj, 'v', case['min'], case['max'])
             return 'ok' if r is None else 'other:%r' % (r,)
-        if fn == 'uuid':
-            r = f(obj)
-            return '%d' % r if isinstance(r, bool) else 'other:%r' % (r,)
     except Exception as e:      # the class name is the canonical outcome
         return type(e).__name__
     raise ValueError(fn)
@@ -920,8 +1051,8 @@ def correspondence(ctx):
                 and tag.split('/')[0] not in ('word', 'limit'):
             ctx.hist['sampled/' + fn] = ctx.hist.get('sampled/' + fn, 0) + 1
             ctx.sample({'case': {k: (short(v) if k == 'value' else v) for k, v in case.items()}, 'implementation': impl}, 14)
-        if impl != rep:
-            out.append(Disagreement(case, impl, rep))
+        if impl != model_view(case, rep):
+            out.append(Disagreement(case, impl, model_view(case, rep)))
     return out
 
 
@@ -992,6 +1123,53 @@ def in_f2_class(case):
     return False
 
 
+def below_min(n, b):
+    """is the integer n below the bound?  exact rational comparison; nothing is below -inf or a NaN (a NaN orders
+    nothing, so it excludes nothing); everything is below +inf"""
+    if b is None:
+        return False
+    e = bound_exact(b)
+    if e[0] == 'fin':
+        return Fraction(n) < e[1]
+    return e[0] == '+inf'
+
+
+def above_max(n, b):
+    if b is None:
+        return False
+    e = bound_exact(b)
+    if e[0] == 'fin':
+        return Fraction(n) > e[1]
+    return e[0] == '-inf'
+
+
+def bound_falsy(b):
+    """check_string_length reads a falsy max_length (None, 0, 0.0, Decimal(0), False) as "no maximum" """
+    if b is None:
+        return True
+    e = bound_exact(b)
+    return e[0] == 'fin' and e[1] == 0
+
+
+def in_f3_class(case):
+    """finding C14-F3 (candidate): a non-finite bound on which the code cannot build its answer - an infinite bound
+    that excludes the value (min=+inf / max=-inf: the '%d' of the message raises OverflowError) or a Decimal NaN
+    bound (every comparison raises decimal.InvalidOperation)"""
+    if case['fn'] not in ('valint', 'strlen'):
+        return False
+    kinds = [bound_exact(b)[0] for b in (case.get('min'), case.get('max')) if b is not None]
+    if 'dnan' in kinds:
+        return True
+    if case['fn'] == 'valint':
+        return (case.get('min') is not None and bound_exact(case['min'])[0] == '+inf') or \
+            (case.get('max') is not None and bound_exact(case['max'])[0] == '-inf')
+    return False
+
+
+def f3_listed():
+    return any(f.get('id') == 'C14-F3' for f in common.load_findings().get('findings', []))
+
+
 def expected(case):
     """What the property demands of the implementation for this case (canonical outcome string)."""
     fn = case['fn']
@@ -1026,18 +1204,16 @@ def expected(case):
             n = None          # bool, float, None, bytes, ...: str(v) is never an integer literal
         if n is None:
             return 'ValueError'
-        if case['min'] is not None and n < case['min']:
-            return 'ValueError'
-        if case['max'] is not None and n > case['max']:
+        if below_min(n, case['min']) or above_max(n, case['max']):
             return 'ValueError'
         return 'ok:' + text_of_int(n)
     if fn == 'strlen':
         if not isinstance(obj, str):
             return 'TypeError'
         ln = sum(1 for _ in obj)
-        if ln < case['min']:
+        if below_min(ln, case['min']):
             return 'ValueError'
-        if case['max'] and ln > case['max']:
+        if not bound_falsy(case['max']) and above_max(ln, case['max']):
             return 'ValueError'
         return 'ok'
     if fn == 'uuid':
@@ -1054,11 +1230,13 @@ def check_case(case):
     if fn.startswith('prim/'):
         return None
     got = run_impl(case)
-    want = expected(case)
+    want = model_view(case, expected(case))
     if got != want:
-        return '%s(%s%s) gave %s, the property demands %s' % (
-            fn, short(case['value']), ''.join(', %s=%r' % (k, case[k]) for k in ('strict', 'min', 'max') if k in case),
-            got, want)
+        args, kwargs = build_call(case)
+        shown = ', '.join(['<value>'] + [repr(a) for a in args[1:]] + ['%s=%r' % (k, v) for k, v in kwargs.items()
+                                                                    if k not in ('subject', 'value', 'val')])
+        return '%s(%s) with value %s gave %s, the property demands %s' % (
+            SIGNATURES[fn][0], shown, short(case['value']), got, want)
     if fn == 'boolstr' and case['value']['t'] == 'str':
         # agreement clause, no model and no word list involved: on unpadded input is_valid_boolstr(s) holds exactly
         # when bool_from_string(s, strict=True) returns a boolean
